@@ -19,7 +19,7 @@ func gen(seed int64, tier string, idx int) *pipe.Scenario {
 	sc.PersistDelayUs = []int{100, 500, 2000, 8000, 20000}[g.R.Intn(5)]
 	sc.PersistBundle = []int{1, 2, 3, 7, 20, 100}[g.R.Intn(6)]
 	// store faults / delays on the flush path
-	switch g.R.Intn(7) {
+	switch g.R.Intn(8) {
 	case 0:
 		sc.Faults = append(sc.Faults, pipe.Fault{Kind: "set", KeyPrefix: "connector:instance:", Every: int64(3 + g.R.Intn(8)), Action: "fail"})
 	case 1:
@@ -30,6 +30,9 @@ func gen(seed int64, tier string, idx int) *pipe.Scenario {
 		sc.Faults = append(sc.Faults, pipe.Fault{Kind: "set", KeyPrefix: "connector:instance:", Nth: int64(2 + g.R.Intn(6)), Action: "fail"})
 	case 4:
 		sc.Faults = append(sc.Faults, pipe.Fault{Kind: "commit", KeyPrefix: "connector:instance:", Nth: int64(2 + g.R.Intn(6)), Action: "fail"})
+	case 5:
+		// the flush transaction itself cannot be created
+		sc.Faults = append(sc.Faults, pipe.Fault{Kind: "newtx", Nth: int64(2 + g.R.Intn(8)), Action: "fail"})
 	}
 	if g.R.Intn(4) == 0 {
 		sc.Steps = append(sc.Steps, pipe.Step{AtEvent: 30 + g.R.Intn(300), Op: "stopwait"})
